@@ -81,13 +81,54 @@ def guard_atoms_plain(ctx: Ctx, f: Func, node: ast.AST) -> list[tuple[ast.expr, 
     return out
 
 
+def mutable_state_reads(ctx: Ctx, f: Func, atoms: list[tuple[ast.expr, bool, str]]) -> list[str]:
+    """Fields of the preconditioner read by non-interval guard atoms that some method other than __init__ writes.
+
+    A guard of the inverse / gradient phase may test the rank's role (assignment queries, configuration
+    fixed at construction); it may not test state that changes between steps, because then the phase
+    no longer runs on every step of its interval.  Locals are followed to their definitions.
+    """
+    from kfv.rules.memo_rules import _backing, _writers
+    p = ctx.prog
+    fields: set[str] = set()
+    seen: set[str] = set()
+    full = p.get_class(BP).fullname
+
+    def visit(e: ast.AST, depth: int) -> None:
+        for n in ast.walk(e):
+            if isinstance(n, ast.Attribute) and isinstance(n.value, ast.Name) and n.value.id == 'self' and isinstance(n.ctx, ast.Load):
+                if n.attr in ('steps', '_steps'):
+                    continue  # counted by the interval-gate clauses
+                fields.update(_backing(p, full, n.attr))
+            elif isinstance(n, ast.Name) and isinstance(n.ctx, ast.Load) and n.id != 'self' and n.id not in seen and depth < 4:
+                seen.add(n.id)
+                for d in p.local_defs(f, n.id):
+                    visit(d, depth + 1)
+
+    for a, _pol, _via in atoms:
+        if isinstance(a, ast.Compare) and any(isinstance(x, ast.BinOp) and isinstance(x.op, ast.Mod) for x in [a.left] + list(a.comparators)):
+            continue
+        visit(a, 0)
+    fields -= {'steps', '_steps'}
+    # hyper-parameters are state by design (SIB-HP / SIB-SCHED decide how they are read and written);
+    # restoring a checkpoint is not a step
+    hps, _ints = hp_names(ctx)
+    fields -= {f'_{h}' for h in hps} | set(hps)
+    out = []
+    for m, _n, fld in _writers(p, full, fields):
+        if m.name == 'load_state_dict':
+            continue
+        out.append(f'self.{fld} (written in {m.short})')
+    return sorted(set(out))
+
+
 def rule_gates(ctx: Ctx) -> None:
     """AFF-GATE, DOM-FGATE, DOM-INVGATE, DOM-ALWAYS over step() and the two hooks."""
     p = ctx.prog
     ctx.rule('AFF-GATE', 'interval gates have the form steps % <own interval> == 0 with dividend exactly the step counter', floor=4)
     ctx.rule('DOM-FGATE', 'every factor-state effect in hooks / step is control-dependent on the factor gate (and on no other step predicate)', floor=8)
-    ctx.rule('DOM-INVGATE', 'every compute_*_inv / broadcast_*_inv in step() is control-dependent on the inverse gate and on no other step predicate', floor=4)
-    ctx.rule('DOM-ALWAYS', 'the gradient phase (preconditioned_grad, broadcast_grad, update_grad, grad scale) depends on no step predicate', floor=3)
+    ctx.rule('DOM-INVGATE', 'every compute_*_inv / broadcast_*_inv in step() is control-dependent on the inverse gate, on no other step predicate and on no field written after construction', floor=4)
+    ctx.rule('DOM-ALWAYS', 'the gradient phase (preconditioned_grad, broadcast_grad, update_grad, grad scale) depends on no step predicate and on no field written after construction', floor=3)
     fus = 'self.factor_update_steps'
     ius = 'self.inv_update_steps'
     seen_gates = set()
@@ -113,14 +154,18 @@ def rule_gates(ctx: Ctx) -> None:
                           f'{fname}: {norm(c.func)} must run exactly on factor-update steps (steps % factor_update_steps == 0); found interval gates {divs or "none"}'
                           + (f' and extra step predicates {others}' if others else ''), c)
             elif m in INV_METHODS and fname == 'step':
-                ok = divs == [ius] and not others
+                mut = mutable_state_reads(ctx, f, atoms)
+                ok = divs == [ius] and not others and not mut
                 ctx.check(ok, 'DOM-INVGATE', f, f'{m} under steps % inv_update_steps == 0 only', norm(c)[:100],
                           f'step(): {norm(c.func)} must run exactly on multiples of the inverse interval; found interval gates {divs or "none"}'
-                          + (f' and extra step predicates {others}' if others else ''), c)
+                          + (f' and extra step predicates {others}' if others else '')
+                          + (f' and guards reading state that changes between steps: {mut}' if mut else ''), c)
             elif m in GRAD_METHODS or m == '_compute_grad_scale':
-                ok = not step_gates and not others and not acc_gates
+                mut = mutable_state_reads(ctx, f, atoms) if fname == 'step' else []
+                ok = not step_gates and not others and not acc_gates and not mut
                 ctx.check(ok, 'DOM-ALWAYS', f, f'{m} runs on every step', norm(c)[:100],
-                          f'step(): {norm(c.func)} is conditional on the step counter ({[g[:3] for g in gates] + others}); every step must precondition', c)
+                          f'step(): {norm(c.func)} is conditional on the step counter ({[g[:3] for g in gates] + others})'
+                          + (f' or on state that changes between steps ({mut})' if mut else '') + '; every step must precondition', c)
     # the phases must exist at all
     st = p.get_func(f'{BP}.step')
     have = {m for _c, m in layer_calls(ctx, st)}
